@@ -16,13 +16,14 @@ type c01Ghost struct {
 	votedIn []uint64 // indexed by replica id, 1..N+1
 }
 
+// maxN == 0: the quick shape list regardless of the tier (used where this step invariant is a re-checked premise).
 func c01Shape(maxN int) vShape {
 	// one flat choice so that the exploration can be split across workers on the first decision.
 	// quick: N = 1..3, a learner exists only for N = 2 (and in the self-is-learner shape);
 	// thorough: the same with both flag settings, plus 4 and 5 voters as candidate and leader.
 	roles := []StateType{StateFollower, StatePreCandidate, StateCandidate, StateLeader}
 	s := vShape{Prod: true, SimplePr: true}
-	if vsym.Thorough() {
+	if vsym.Thorough() && maxN != 0 {
 		// quick's 15 shapes with pre-vote/check-quorum on and off (30), plus 4 and 5 voters as candidate and
 		// leader (4). (The full product N=1..5 x learner x role x flags, 100 shapes, ran for more than an hour.)
 		k := vsym.Choose("shape", 34)
@@ -203,14 +204,25 @@ func c01Check(v *vRaft, g *c01Ghost, pre c01Pre, tag string) {
 
 // Step with an arbitrary incoming message (through the node-level filter).
 func Verif_C01_Step() {
-	s := c01Shape(3)
+	c01StepBody(vsym.Thorough(), 3)
+	vsym.Reach("done")
+}
+
+// The same step invariant on the quick shape list in both tiers: the premise C02 re-checks.
+func Verif_C02_P_ElectionSafetyStep() {
+	c01StepBody(false, 0)
+	vsym.Reach("done")
+}
+
+func c01StepBody(rich bool, maxN int) {
+	s := c01Shape(maxN)
 	typ := pb.MessageType(vsym.Choose("m.type", 19))
 	// what the step can depend on: elections compare logs; vote responses read the recorded answers
 	election := typ == pb.MsgHup || typ == pb.MsgVote || typ == pb.MsgVoteResp || typ == pb.MsgPreVote || typ == pb.MsgPreVoteResp ||
 		typ == pb.MsgTimeoutNow || typ == pb.MsgTransferLeader || typ == pb.MsgCheckQuorum
-	c01LogShape(&s, election || vsym.Thorough())
+	c01LogShape(&s, election || rich)
 	v := vMkRaft(s)
-	g := c01SetupV(v, typ == pb.MsgVoteResp || typ == pb.MsgPreVoteResp || vsym.Thorough())
+	g := c01SetupV(v, typ == pb.MsgVoteResp || typ == pb.MsgPreVoteResp || rich)
 	r := v.r
 	nents := 0
 	switch typ {
